@@ -3523,6 +3523,8 @@ class __implementations__:
             newshape = (*newshape[:i], length, *newshape[i+1:])
         elif numpy.prod(newshape, initial=1) != arg.size:
             raise ValueError(f'cannot reshape array of size {arg.size} into shape {newshape}')
+        if tuple(newshape) == arg.shape:
+            return arg
         if not arg.size:
             # an empty array has no entries to rearrange
             return zeros(tuple(newshape), arg.dtype)
